@@ -260,18 +260,22 @@ META = {
         not_decided=["branch offsets after strip_noops land on instruction boundaries", "no temporary is read before it is written on any path (GVN invalidation)",
                      "live bitmaps cover every register temporary still needed (live-range computation)"]),
     "C12": dict(
-        technique="pairing rule for the two parser stacks, position-provenance rule, dispatch-table exhaustiveness, who-parses-what rule",
+        technique="pairing rule for the two parser stacks, position-provenance rule, dispatch-table exhaustiveness, who-parses-what rule, index-guard dominance rule for the in-place scan",
         claim="Decides acceptance (stack pairing => accepts iff balanced), error kind and position (character index of the first unmatched `]`, else of "
               "the innermost unclosed `[`), comment inertness in the parser and the in-place interpreter, and that every parsing executor parses its "
-              "unmodified source (STACK-PAIR, ERR-POS, COMMENT-INERT, PARSE-CALLERS). Absence of panics at moderate depth in the recursive consumers is not decided.",
+              "unmodified source (STACK-PAIR, ERR-POS, COMMENT-INERT, PARSE-CALLERS), and that the in-place interpreter cannot panic on any source text through an index, unwrap or "
+              "panicking macro (NO-PANIC: every `bytes[i]` is dominated by a still-valid `i < bytes.len()`). Absence of panics at moderate depth in the recursive consumers is not decided.",
         note=TRUST,
         explanation="E1 rules over src/ir.rs (Program::parse), src/exec/inplace.rs and the Executor::create impls.",
-        not_decided=["absence of stack overflow / panics in the recursive IR consumers at moderate nesting depth", "the in-place interpreter's own bracket matching (C04)"]),
+        not_decided=["absence of stack overflow / panics in the recursive IR consumers at moderate nesting depth", "the in-place interpreter's own bracket matching (C04)",
+                     "panics of the parser itself other than through indexing (none are syntactically present; arithmetic overflow of positions is not analysed)"]),
     "C13": dict(
-        technique="type/import rule for hash containers, commutative-sink classification of every iteration over unordered containers, interior-mutability and global-state rule, selector coverage",
+        technique="type/import rule for hash containers, commutative-sink classification of every iteration over unordered containers, interior-mutability and global-state rule, selector coverage, evaluation of the emitter arms for embedded function addresses",
         claim="Decides determinism (constant-seeded hasher everywhere except listed files, where every unordered iteration feeds commutative sinks: "
               "HASH-SEED, ITER-ORDER), reusability (no interior mutability, caches or mutable statics; code regenerated per call with this call's "
-              "flags: EXEC-FREEZE) and selector totality over the canonical forms (SEL-COVER). Absence of value-dependent panics and the complexity bound are not decided.",
+              "flags: EXEC-FREEZE), selector totality over the canonical forms (SEL-COVER), and that no process-dependent value reaches the emitted machine code (MC-ADDR: "
+              "the three runtime-shim addresses embedded as immediates are reported as KNOWN-FINDINGs - printed machine code differs between processes under ASLR). "
+              "Absence of value-dependent panics and the complexity bound are not decided.",
         note=TRUST,
         explanation="E1 rules over src/hasher.rs, imports of every library file, src/bc.rs iteration sites, executor struct definitions and codegen.rs.",
         not_decided=["absence of value-dependent panics (assert!(replacements.is_empty()), unwrap on live ranges, counter underflow)", "the polynomial bound on optimisation cost"]),
